@@ -265,52 +265,11 @@ func checkC12(r *Run) {
 	// transport down and wakes every caller)
 	c11RetryOnlyTransient(r, p, "io-retry", []*ssa.Function{reader}, "the reader treats a non-transient read error as temporary: it spins on a dead connection and never starts the shutdown, so pending and later calls hang")
 
+	onlyTerminationChannelsClosed(r, tfns, "close-once")
 	ioDeadlineArmed(r, "io-deadline")
+	clientReplyTyped(r, "reply-typed")
 
-	// (5) write failure path
-	var ownerWrites []*ssa.Call
-	for _, f := range p.withHelpers(owner, 1) {
-		ownerWrites = append(ownerWrites, findCalls(f, "invoke p9p.Channel.WriteFcall")...)
-	}
-	r.Floor("write-failure", len(ownerWrites), 1, "request writes in the owner loop")
-	for _, w := range ownerWrites {
-		owner := w.Parent()
-		e := errResult(w)
-		if e == nil {
-			r.Bad("write-failure", "handle: WriteFcall error examined", w.Pos(), "request write errors are ignored: the caller waits for a reply that never comes")
-			continue
-		}
-		okDel, okSend := false, false
-		eachInstr(owner, func(in ssa.Instruction) {
-			if !knownNonNilAt(e, in) {
-				return
-			}
-			if c, ok := in.(*ssa.Call); ok {
-				if b, ok := c.Call.Value.(*ssa.Builtin); ok && b.Name() == "delete" {
-					okDel = true
-				}
-			}
-			if sd, ok := in.(*ssa.Send); ok && chanProv(sd.Chan, 0) == "field:fcallRequest.err" && sd.X == e {
-				okSend = true
-			}
-		})
-		r.Check(okDel, "write-failure", "handle: failed request write frees the tag", w.Pos(), "the tag of a request that was never sent stays outstanding for ever")
-		r.Check(okSend, "write-failure", "handle: failed request write is reported to the caller", w.Pos(), "the caller of a request that could not be written is never told")
-		// a failed write (the request's own context may simply have ended: WriteFcall(req.ctx, …) returns ctx.Err()
-		// before touching the wire) concerns that one call: the owner loop must go on serving the others
-		if owner.Parent() == nil && len(findCalls(owner, "invoke p9p.Channel.WriteFcall")) > 0 {
-			okGoOn := true
-			var where ssa.Instruction = w
-			for _, ret := range returnsOf(owner) {
-				if knownNonNilAt(e, ret) && isOwnerLoop(owner) {
-					okGoOn = false
-					where = ret
-				}
-			}
-			r.Check(okGoOn, "write-failure", "handle: a failed request write does not end the owner loop", where.Pos(),
-				"the owner loop returns on a request-write error: one call whose context has ended shuts the whole session down for every other caller")
-		}
-	}
+	c12WriteFailure(r, p, owner)
 
 	// (4) assertions in the client + panic reach
 	cfile := map[string]bool{"csession.go": true, "transport.go": true, "version.go": true}
@@ -538,4 +497,105 @@ func ioDeadlineArmed(r *Run, rule string) {
 		}
 	}
 	r.Floor(rule, n, 3, "I/O steps in ReadFcall/WriteFcall")
+}
+
+// clientReplyTyped: every client Session method checks the type of the reply it got before reporting success: a
+// comma-ok assertion of the reply to an R-message type, with every nil-error return on its ok edge. A reply of the
+// wrong type (correct tag, other message) must surface as an error, not as success.
+func clientReplyTyped(r *Run, rule string) {
+	p := r.P
+	n := 0
+	for _, fn := range p.FuncsOfPkg("p9p") {
+		if fn.Parent() != nil || fn.Signature.Recv() == nil || !isP9P(fn.Signature.Recv().Type(), "client") {
+			continue
+		}
+		sends := findCalls(fn, "invoke p9p.roundTripper.send")
+		if len(sends) == 0 {
+			continue
+		}
+		n++
+		reply := resultN(sends[0], 0)
+		var oks []ssa.Value
+		eachInstr(fn, func(in ssa.Instruction) {
+			ta, ok := in.(*ssa.TypeAssert)
+			if !ok || !ta.CommaOk || ta.X != reply {
+				return
+			}
+			if strings.HasPrefix(strings.TrimPrefix(shortType(ta.AssertedType), "p9p."), "MessageR") {
+				if okv := resultN(ta, 1); okv != nil {
+					oks = append(oks, okv)
+				}
+			}
+		})
+		good := len(oks) > 0
+		for _, ret := range returnsOf(fn) {
+			if len(ret.Results) == 0 || !isNilConst(ret.Results[len(ret.Results)-1]) {
+				continue
+			}
+			onOk := false
+			for _, cd := range condsAtInstr(ret) {
+				nc := normCond(cd)
+				for _, okv := range oks {
+					if nc.V == okv && nc.Truth {
+						onOk = true
+					}
+				}
+			}
+			if !onOk {
+				good = false
+			}
+		}
+		r.Check(good, rule, fnName(fn)+": success only on the ok edge of a checked assertion of the reply to its R-message type", fn.Pos(),
+			"the method reports success without checking what kind of reply it received: a wrong-typed reply is taken for success")
+	}
+	r.Floor(rule, n, 11, "client Session methods with a round trip")
+}
+
+// c12WriteFailure: a failed request write frees the tag, is reported to the caller, and does not end the owner loop.
+func c12WriteFailure(r *Run, p *Prog, owner *ssa.Function) {
+	// (5) write failure path
+	var ownerWrites []*ssa.Call
+	for _, f := range p.withHelpers(owner, 1) {
+		ownerWrites = append(ownerWrites, findCalls(f, "invoke p9p.Channel.WriteFcall")...)
+	}
+	r.Floor("write-failure", len(ownerWrites), 1, "request writes in the owner loop")
+	for _, w := range ownerWrites {
+		owner := w.Parent()
+		e := errResult(w)
+		if e == nil {
+			r.Bad("write-failure", "handle: WriteFcall error examined", w.Pos(), "request write errors are ignored: the caller waits for a reply that never comes")
+			continue
+		}
+		okDel, okSend := false, false
+		eachInstr(owner, func(in ssa.Instruction) {
+			if !knownNonNilAt(e, in) {
+				return
+			}
+			if c, ok := in.(*ssa.Call); ok {
+				if b, ok := c.Call.Value.(*ssa.Builtin); ok && b.Name() == "delete" {
+					okDel = true
+				}
+			}
+			if sd, ok := in.(*ssa.Send); ok && chanProv(sd.Chan, 0) == "field:fcallRequest.err" && sd.X == e {
+				okSend = true
+			}
+		})
+		r.Check(okDel, "write-failure", "handle: failed request write frees the tag", w.Pos(), "the tag of a request that was never sent stays outstanding for ever")
+		r.Check(okSend, "write-failure", "handle: failed request write is reported to the caller", w.Pos(), "the caller of a request that could not be written is never told")
+		// a failed write (the request's own context may simply have ended: WriteFcall(req.ctx, …) returns ctx.Err()
+		// before touching the wire) concerns that one call: the owner loop must go on serving the others
+		if owner.Parent() == nil && len(findCalls(owner, "invoke p9p.Channel.WriteFcall")) > 0 {
+			okGoOn := true
+			var where ssa.Instruction = w
+			for _, ret := range returnsOf(owner) {
+				if knownNonNilAt(e, ret) && isOwnerLoop(owner) {
+					okGoOn = false
+					where = ret
+				}
+			}
+			r.Check(okGoOn, "write-failure", "handle: a failed request write does not end the owner loop", where.Pos(),
+				"the owner loop returns on a request-write error: one call whose context has ended shuts the whole session down for every other caller")
+		}
+	}
+
 }
